@@ -356,7 +356,11 @@ func ruleC03R2(r *Run) {
 				}
 			}
 			if !dep {
-				for _, pr := range rj.Instr.Block().Preds {
+				rjBlock := rj.Instr.Block()
+				if at := p.liftTo(rj.Instr.(ssa.Instruction), fn); at != nil {
+					rjBlock = at.Block() // reject() inside an inlined helper (rejectElem): the test sits at its call
+				}
+				for _, pr := range rjBlock.Preds {
 					if iff, ok := pr.Instrs[len(pr.Instrs)-1].(*ssa.If); ok && l.Body[pr] && p.dependsOnCall(iff.Cond, "(*Generator).value", 0, map[ssa.Value]bool{}) {
 						dep = true
 					}
@@ -845,71 +849,138 @@ func ruleC03R6(r *Run) {
 			r.Undecided("newMakeKindGen#switch", fd.Pos(), "no switch statement in newMakeKindGen")
 		} else {
 			nScalar, nCases, hasDefault := 0, 0, false
-			for _, st := range sw.Body.List {
-				cc := st.(*ast.CaseClause)
-				if cc.List == nil {
-					hasDefault = true
-					okPanic := false
-					for _, s := range cc.Body {
-						if es, ok := s.(*ast.ExprStmt); ok {
-							if ce, ok := es.X.(*ast.CallExpr); ok {
-								if id, ok := ce.Fun.(*ast.Ident); ok && id.Name == "panic" {
-									okPanic = true
-								}
-							}
-						}
-					}
-					r.Check("newMakeKindGen#default", cc.Pos(), okPanic, "unsupported kinds panic", "the default case of Make's kind switch does not panic")
+			// the scalar kinds may be dispatched by a helper tried first: `if g := helper(typ.Kind()); g != nil { return g, true }`
+			// with a switch of its own whose cases return <generator>.AsAny() and whose default returns nil
+			type kindSwitch struct {
+				sw       *ast.SwitchStmt
+				castFlag *bool // the flag returned with the helper's hit
+			}
+			switches := []kindSwitch{{sw: sw}}
+			for _, st := range fd.Body.List {
+				ifs, ok := st.(*ast.IfStmt)
+				if !ok || ifs.Init == nil || len(ifs.Body.List) != 1 {
 					continue
 				}
-				for _, e := range cc.List {
-					nCases++
-					sel, ok := e.(*ast.SelectorExpr)
-					if !ok {
-						continue
+				as, ok := ifs.Init.(*ast.AssignStmt)
+				if !ok || len(as.Lhs) != 1 || len(as.Rhs) != 1 {
+					continue
+				}
+				ce, ok := as.Rhs[0].(*ast.CallExpr)
+				if !ok {
+					continue
+				}
+				hid, ok := ce.Fun.(*ast.Ident)
+				if !ok {
+					continue
+				}
+				cond, ok := ifs.Cond.(*ast.BinaryExpr)
+				if !ok || cond.Op != token.NEQ {
+					continue
+				}
+				rs, ok := ifs.Body.List[0].(*ast.ReturnStmt)
+				if !ok || len(rs.Results) != 2 {
+					continue
+				}
+				lhs, ok1 := as.Lhs[0].(*ast.Ident)
+				ret0, ok2 := rs.Results[0].(*ast.Ident)
+				if !ok1 || !ok2 || lhs.Name != ret0.Name {
+					continue
+				}
+				hd := p.funcDecl(hid.Name)
+				if hd == nil {
+					continue
+				}
+				var hsw *ast.SwitchStmt
+				ast.Inspect(hd.Body, func(n ast.Node) bool {
+					if s, ok := n.(*ast.SwitchStmt); ok && hsw == nil {
+						hsw = s
 					}
-					kind := sel.Sel.Name
-					// returned generator
-					var retCall *ast.CallExpr
-					for _, s := range cc.Body {
-						if rs, ok := s.(*ast.ReturnStmt); ok && len(rs.Results) > 0 {
-							retCall, _ = rs.Results[0].(*ast.CallExpr)
+					return true
+				})
+				if hsw == nil {
+					continue
+				}
+				var flag *bool
+				if tv, ok := p.Info.Types[rs.Results[1]]; ok && tv.Value != nil && tv.Value.Kind() == constant.Bool {
+					b := constant.BoolVal(tv.Value)
+					flag = &b
+				}
+				switches = append(switches, kindSwitch{sw: hsw, castFlag: flag})
+			}
+			for _, ks := range switches {
+				sw := ks.sw
+				for _, st := range sw.Body.List {
+					cc := st.(*ast.CaseClause)
+					if cc.List == nil {
+						if ks.castFlag != nil || sw != switches[0].sw {
+							continue // the helper's default hands back nil: the main switch decides
 						}
-					}
-					if retCall == nil {
-						continue
-					}
-					// second result: a scalar generator yields the predeclared type (bool, int, …), so values for a
-					// named type of that kind (type Celsius float64) must still be converted: mayNeedCast must be true;
-					// the reflect-built composites already have the requested type
-					var castFlag *bool
-					for _, s := range cc.Body {
-						if rs, ok := s.(*ast.ReturnStmt); ok && len(rs.Results) == 2 {
-							if tv, ok := p.Info.Types[rs.Results[1]]; ok && tv.Value != nil && tv.Value.Kind() == constant.Bool {
-								b := constant.BoolVal(tv.Value)
-								castFlag = &b
-							}
-						}
-					}
-					asAny, ok := retCall.Fun.(*ast.SelectorExpr)
-					if !ok || asAny.Sel.Name != "AsAny" {
-						continue // composite kinds
-					}
-					r.Check("newMakeKindGen#cast."+kind, cc.Pos(), castFlag != nil && *castFlag, "values of reflect."+kind+" generators are converted to named types of that kind", "Make does not request a conversion for reflect."+kind+" (mayNeedCast is not true): for a named type of that kind the generated value has the predeclared type and Make[V] panics in its type assertion")
-					nScalar++
-					tv, ok := p.Info.Types[asAny.X]
-					good, got := false, "?"
-					if ok {
-						if pt, ok := tv.Type.(*types.Pointer); ok {
-							if nt, ok := pt.Elem().(*types.Named); ok && nt.TypeArgs() != nil && nt.TypeArgs().Len() == 1 {
-								got = nt.TypeArgs().At(0).String()
-								if bt, ok := nt.TypeArgs().At(0).Underlying().(*types.Basic); ok {
-									good = bt.Kind() == kindToBasic[kind]
+						hasDefault = true
+						okPanic := false
+						for _, s := range cc.Body {
+							if es, ok := s.(*ast.ExprStmt); ok {
+								if ce, ok := es.X.(*ast.CallExpr); ok {
+									if id, ok := ce.Fun.(*ast.Ident); ok && id.Name == "panic" {
+										okPanic = true
+									}
 								}
 							}
 						}
+						r.Check("newMakeKindGen#default", cc.Pos(), okPanic, "unsupported kinds panic", "the default case of Make's kind switch does not panic")
+						continue
 					}
-					r.Check("newMakeKindGen#case."+kind, cc.Pos(), good, "reflect."+kind+" is generated by a generator of "+got, "Make maps reflect."+kind+" to a generator of "+got+": the value does not have the requested dynamic type")
+					for _, e := range cc.List {
+						nCases++
+						sel, ok := e.(*ast.SelectorExpr)
+						if !ok {
+							continue
+						}
+						kind := sel.Sel.Name
+						// returned generator
+						var retCall *ast.CallExpr
+						for _, s := range cc.Body {
+							if rs, ok := s.(*ast.ReturnStmt); ok && len(rs.Results) > 0 {
+								retCall, _ = rs.Results[0].(*ast.CallExpr)
+							}
+						}
+						if retCall == nil {
+							continue
+						}
+						// second result: a scalar generator yields the predeclared type (bool, int, …), so values for a
+						// named type of that kind (type Celsius float64) must still be converted: mayNeedCast must be true;
+						// the reflect-built composites already have the requested type
+						var castFlag *bool
+						if sw != switches[0].sw {
+							castFlag = ks.castFlag
+						}
+						for _, s := range cc.Body {
+							if rs, ok := s.(*ast.ReturnStmt); ok && len(rs.Results) == 2 {
+								if tv, ok := p.Info.Types[rs.Results[1]]; ok && tv.Value != nil && tv.Value.Kind() == constant.Bool {
+									b := constant.BoolVal(tv.Value)
+									castFlag = &b
+								}
+							}
+						}
+						asAny, ok := retCall.Fun.(*ast.SelectorExpr)
+						if !ok || asAny.Sel.Name != "AsAny" {
+							continue // composite kinds
+						}
+						r.Check("newMakeKindGen#cast."+kind, cc.Pos(), castFlag != nil && *castFlag, "values of reflect."+kind+" generators are converted to named types of that kind", "Make does not request a conversion for reflect."+kind+" (mayNeedCast is not true): for a named type of that kind the generated value has the predeclared type and Make[V] panics in its type assertion")
+						nScalar++
+						tv, ok := p.Info.Types[asAny.X]
+						good, got := false, "?"
+						if ok {
+							if pt, ok := tv.Type.(*types.Pointer); ok {
+								if nt, ok := pt.Elem().(*types.Named); ok && nt.TypeArgs() != nil && nt.TypeArgs().Len() == 1 {
+									got = nt.TypeArgs().At(0).String()
+									if bt, ok := nt.TypeArgs().At(0).Underlying().(*types.Basic); ok {
+										good = bt.Kind() == kindToBasic[kind]
+									}
+								}
+							}
+						}
+						r.Check("newMakeKindGen#case."+kind, cc.Pos(), good, "reflect."+kind+" is generated by a generator of "+got, "Make maps reflect."+kind+" to a generator of "+got+": the value does not have the requested dynamic type")
+					}
 				}
 			}
 			// scalar kinds kept in a package-level table map[reflect.Kind]func() *Generator[any] instead of switch cases:
